@@ -16,5 +16,6 @@ GROUPS = [
  _p("rpdo_getmap", "CORPdoGetMap", 9, _PDO, {"C14": "quick", "C13": "quick", "C01": "quick"}, defs=["VW_OP=9", "VW_MAPN_MAX=3"], unwind_all=9, unwind={"CORPdoGetMap.1": 4, "CORPdoGetMap.0": 8},
     bounded="stored RPDO mapping count <= 3 entries (lengths, dummies, targets symbolic)"),
  _p("tpdo_getmap", "COTPdoGetMap", 10, _PDO, {"C14": "quick", "C12": "quick", "C01": "quick"}, unwind_all=9, unwind={"COTPdoMapAdd.0": 33}, defs=["VW_OP=10", "CO_TPDO_N=4"]),
+ _p("sync_prod_send", "COSyncProdSend", 11, _PDO, {"C16": "quick", "C09": "quick", "C01": "quick"}),
  _p("sync_handler_rx", "COSyncHandler", 4, _PDO, {"C13": "quick", "C16": "quick", "C01": "quick"}),
 ]
